@@ -118,7 +118,9 @@ def hs_client_hello(rng):
     from cryptodatahub.tls.algorithm import TlsCipherSuite, TlsCompressionMethod
     from cryptoparser.tls.subprotocol import TlsHandshakeClientHello
     suites = list(TlsCipherSuite)
-    count = rng.choice((1, 1, 2, 5, 17, 64, 200)) if rng.random() < 0.995 else rng.choice((2000, 2000, 2000, 32765))
+    # (the 32765-suite hello at the vector ceiling is built by C13 itself: parsing it costs ~0.3 s, too much for
+    # schedules that parse once per delivered byte)
+    count = rng.choice((1, 1, 2, 5, 17, 64, 200)) if rng.random() < 0.995 else rng.choice((600, 2000))
     chosen = [rng.choice(suites) for _ in range(count)]
     return TlsHandshakeClientHello(
         cipher_suites=chosen,
@@ -276,6 +278,34 @@ def make_ssl2_record(rng):
     return bytes(SslRecord(message).compose())
 
 
+def _valid_ssl2_body(rng):
+    """message type + message of an SSL 2.0 record, composed by the library and accepted by its own parser
+    in the 2-byte-header form (so that only the header form differs)."""
+    from cryptoparser.tls.record import SslRecord
+    for _ in range(20):
+        two_byte = make_ssl2_record(rng)
+        try:
+            SslRecord.parse_exact_size(two_byte)
+        except Exception:  # pylint: disable=broad-except
+            continue
+        if len(two_byte) - 2 + 15 < 2 ** 14:
+            return two_byte[2:]
+    raise SenderRejected('ssl2_record', ['no valid 2-byte-header record'])
+
+
+def make_ssl2_record_long_header(rng):
+    """An SSL 2.0 record with the 3-byte header form (padding length octet, optional IS-ESCAPE bit) as a peer
+    implementing the SSL 2.0 specification may send it.  The library only composes the 2-byte form, so the
+    message is composed by the library and the record header is written from the specification:
+    byte0 = escape(0x40) | length >> 8 (6 bits), byte1 = length & 0xff, byte2 = padding; length counts the
+    message and the padding."""
+    body = _valid_ssl2_body(rng)
+    padding = rng.choice((0, 0, 1, 7, 8, 15))
+    length = len(body) + padding
+    escape = 0x40 if rng.random() < 0.5 else 0
+    return bytes((escape | (length >> 8), length & 0xff, padding)) + body + bytes(rng.getrandbits(8) for _ in range(padding))
+
+
 def _name_list(rng, enum_class, unknown=True):
     members = list(enum_class)
     items = rng.sample(members, min(len(members), rng.choice((0, 1, 1, 2, 3, 8, 20))))
@@ -407,12 +437,15 @@ def make_ssh_banner(rng):
 
 
 class Channel(object):
-    def __init__(self, name, cls_path, framer, make, in_c04=True):
+    def __init__(self, name, cls_path, framer, make, in_c04=True, spec_sender=False):
         self.name = name
         self.cls_path = cls_path
         self.framer = framer
         self._make = make
         self.in_c04 = in_c04
+        # spec_sender: the framing is written from the protocol specification around a library-composed
+        # message, so the unit is valid by construction and is NOT filtered through the library's own parser
+        self.spec_sender = spec_sender
 
     def make(self, rng, discards=None):
         """One framing unit composed by the library *and accepted whole by its own parser*.
@@ -421,6 +454,8 @@ class Channel(object):
         from simverif import core
         cls = core.get_class(self.cls_path)
         errors = []
+        if self.spec_sender:
+            return self._make(rng)
         for _ in range(20):
             try:
                 raw = self._make(rng)
@@ -439,6 +474,8 @@ CHANNELS = [
     Channel('tls_record', P_ + 'tls.record.TlsRecord', 'tls_record', make_tls_record),
     Channel('tls_handshake', P_ + 'tls.subprotocol.TlsHandshakeMessageVariant', 'tls_handshake', make_tls_handshake),
     Channel('ssl2_record', P_ + 'tls.record.SslRecord', 'ssl2_record', make_ssl2_record),
+    Channel('ssl2_record_long_header', P_ + 'tls.record.SslRecord', 'ssl2_record', make_ssl2_record_long_header,
+            spec_sender=True),
     Channel('ssh_init', P_ + 'ssh.record.SshRecordInit', 'ssh_packet', make_ssh_record('init')),
     Channel('ssh_kexdh', P_ + 'ssh.record.SshRecordKexDH', 'ssh_packet', make_ssh_record('dh')),
     Channel('ssh_kexdhgroup', P_ + 'ssh.record.SshRecordKexDHGroup', 'ssh_packet', make_ssh_record('gex')),
